@@ -334,6 +334,46 @@ func (c *Ctx) renames() *renameMap {
 		}
 		return s
 	}
+	// a new unexported struct type that an existing struct type of the package holds by value is a
+	// part of that type (fields and the methods working on them were grouped): a method of the part
+	// matches the lost method of the host.  part name -> host name, where the host is unique.
+	partOf := map[string]string{}
+	for _, nt := range newT {
+		if nt.Kind != "struct" || ast.IsExported(nt.Name) {
+			continue
+		}
+		renamed := false
+		for _, nw := range rm.types {
+			renamed = renamed || nw == nt.Name
+		}
+		if renamed {
+			continue
+		}
+		host, n := "", 0
+		for _, ht := range cur.Types {
+			if ht.Pkg != nt.Pkg || ht.Kind != "struct" || ht.Name == nt.Name {
+				continue
+			}
+			for _, f := range ht.Fields {
+				if f == nt.Name {
+					host = ht.Name
+					n++
+					break
+				}
+			}
+		}
+		if n == 1 {
+			partOf[nt.Pkg+"."+nt.Name] = host
+		}
+	}
+	hostSig := func(pkg, s string) string {
+		for k, host := range partOf {
+			if strings.HasPrefix(k, pkg+".") {
+				s = regexp.MustCompile(`\b`+regexp.QuoteMeta(strings.TrimPrefix(k, pkg+"."))+`\b`).ReplaceAllString(s, host)
+			}
+		}
+		return s
+	}
 	// ---- constants and variables
 	refV, curV := map[string]valPrint{}, map[string]valPrint{}
 	for _, v := range ref.Vals {
@@ -394,7 +434,10 @@ func (c *Ctx) renames() *renameMap {
 	for _, lf := range lostF {
 		best, bestScore, ties := -1, -1.0, 0
 		for i, nf := range newF {
-			if nf.Pkg != lf.Pkg || used[key(nf)] || normSig(nf.Pkg, nf.Sig) != lf.Sig {
+			if nf.Pkg != lf.Pkg || used[key(nf)] {
+				continue
+			}
+			if normSig(nf.Pkg, nf.Sig) != lf.Sig && (len(partOf) == 0 || normSig(nf.Pkg, hostSig(nf.Pkg, nf.Sig)) != lf.Sig) {
 				continue
 			}
 			score := jaccard(lf.Callees, nf.Callees) + jaccard(lf.Callers, nf.Callers)
